@@ -314,6 +314,9 @@ def logger_kwargs(cfg: dict) -> dict:
     return kw
 
 
+_LONG_LIVED: dict = {}
+
+
 def impl_logger(c: dict) -> dict:
     cfg = c["cfg"]
     payload = copy.deepcopy(c["payload"])
@@ -329,11 +332,27 @@ def impl_logger(c: dict) -> dict:
         dl.random = types.SimpleNamespace(random=draw)
         with audit_capture() as cap:
             lg.log(payload)
+        msgs = [r.getMessage() for r in cap.records if r.levelno == lg.level]
+        # the same record through ONE long-lived logger per configuration: a logger carries no state from one record to the next
+        try:
+            key = json.dumps(logger_kwargs(cfg), sort_keys=True, default=repr)
+        except Exception:  # noqa: BLE001
+            key = None
+        if key is not None:
+            old_lg = _LONG_LIVED.get(key)
+            if old_lg is None:
+                old_lg = _LONG_LIVED[key] = dl.DecisionLogger(**logger_kwargs(copy.deepcopy(cfg)))
+            n_before = len(calls)
+            with audit_capture() as cap2:
+                old_lg.log(copy.deepcopy(c["payload"]))
+            del calls[n_before:]
+            msgs2 = [r.getMessage() for r in cap2.records if r.levelno == old_lg.level]
+            if msgs2 != msgs:
+                return {"stateful_logger": True, "fresh": msgs[:1], "long_lived": msgs2[:1], "caller_after": payload}
     except Exception as e:  # noqa: BLE001
         return {"raised": type(e).__name__, "caller_after": payload}
     finally:
         dl.random = saved_random
-    msgs = [r.getMessage() for r in cap.records if r.levelno == lg.level]
     res: dict[str, Any] = {"caller_after": payload, "n_messages": len(msgs), "draws": len(calls)}
     if not msgs:
         res["dropped"] = True
@@ -462,6 +481,9 @@ def judge(c: dict, out: dict, ans: Any) -> tuple[bool, list[str], str, bool]:
         cls = "redact/" + ("changed" if changed else "unchanged") + ("/in-place" if c["in_place"] else "")
         return dis, fails, cls, changed
     # logger
+    if out.get("stateful_logger"):
+        fails.append("a long-lived DecisionLogger emitted another record than a fresh one with the same configuration (state carried across records)")
+        return True, fails, "logger/stateful", True
     if "raised" in out:
         fails.append(f"DecisionLogger.log raised {out['raised']}")
         return True, fails, "logger/raised", True
